@@ -76,6 +76,16 @@ def cases_for(ctx):
                 ((c["kind"] in ("iter", "iterref") and c["mode"] in ("active", "activeshape", "activeshaperef")) or (c["kind"] == "coiter" and c["mode"] in ("activeshape", "activeshaperef"))):
             a0 = c["act"][0]
             cases.append(dict(c, noshape=1, act=[a0, max(c["act"][1], a0) + rng.randint(0, 3)]))
+    # fibers that were traversed and queried, THEN grown by appends, then traversed (the traversal follows the content as it is now); with a declared shape, and
+    # without shape or active range (the extent is then one past the last stored coordinate - the case's `shape` says so)
+    for c in list(cases):
+        if c["kind"] in ("iter", "iterref") and c.get("emb", "fiber") == "fiber" and len(c["f"]["e"]) >= 2 and c.get("sp", -1) == -1 and rng.random() < 0.5:
+            k = rng.randint(0, len(c["f"]["e"]) - 1)
+            cases.append(dict(c, warm=k))
+            if c["mode"] in ("active", "activeshape", "activeshaperef", "occ", "default") and not c.get("fmt") and not c.get("noshape"):
+                ext = c["f"]["e"][-1][0] + 1
+                cases.append(dict(c, noshape=1, hasact=0, shape=ext, warm=k))
+                cases.append(dict(c, noshape=1, hasact=0, shape=ext))
     # the same traversals over fibers whose rank default is 2 (a stored 2 is the explicit default, a stored 0 is content)
     for c in list(cases):
         if rng.random() < (0.35 if ctx.quick else 0.6):
